@@ -3592,6 +3592,96 @@ pub fn run(ctx: &mut Ctx) {
     if want("W4") {
         w4(ctx);
     }
+    if want("W5") {
+        w5(ctx);
+    }
+}
+
+/// W5: the buffer limit configured through `DearmorOptions::set_limit` bounds what is buffered while an armor
+/// header that never completes is being read, on every entry point that accepts the options (they share the
+/// dearmorer but reach its header reader through different functions).
+fn w5(ctx: &mut Ctx) {
+    use pgp::armor::DearmorOptions;
+    let inputs: Vec<(&str, Vec<u8>)> = vec![
+        ("no-begin-line", rep(b"leading text without any armor line\n", 60_000)),
+        ("endless-comment-headers", {
+            let mut v = b"-----BEGIN PGP MESSAGE-----\n".to_vec();
+            v.extend(rep(b"Comment: still no blank line\n", 70_000));
+            v
+        }),
+        ("one-endless-header-line", {
+            let mut v = b"-----BEGIN PGP PUBLIC KEY BLOCK-----\nComment: ".to_vec();
+            v.extend(rep(b"x", 2 * MIB as usize));
+            v
+        }),
+        ("endless-begin-line", {
+            let mut v = b"-----BEGIN PGP ".to_vec();
+            v.extend(rep(b"A", 2 * MIB as usize));
+            v
+        }),
+    ];
+    let entries: [&str; 4] = ["Any::from_armor_buf_with_options", "Message::from_armor_with_options", "PublicOrSecret::from_armor_many_buf_with_options", "Dearmor::with_options+read"];
+    for limit in [64 * KIB, 512 * KIB] {
+        for (iname, data) in &inputs {
+            for (ei, ename) in entries.iter().enumerate() {
+                if !ctx.mine() {
+                    continue;
+                }
+                describe_case(&format!("W5 {ename} limit {limit} input {iname}"));
+                let opt = || DearmorOptions::new().set_limit(limit as usize);
+                let (r, st) = measure_alloc(|| {
+                    crate::core::guard(|| -> bool {
+                        let src = BufReader::with_capacity(8192, &data[..]);
+                        match ei {
+                            0 => pgp::composed::Any::from_armor_buf_with_options(src, opt()).is_ok(),
+                            1 => Message::from_armor_with_options(src, opt()).is_ok(),
+                            2 => match pgp::composed::PublicOrSecret::from_armor_many_buf_with_options(src, opt()) {
+                                Ok((it, _)) => it.take(3).any(|x| x.is_ok()),
+                                Err(_) => false,
+                            },
+                            _ => {
+                                let mut d = Dearmor::with_options(src, opt());
+                                let mut buf = [0u8; 4096];
+                                let mut ok = false;
+                                loop {
+                                    match d.read(&mut buf) {
+                                        Ok(0) => {
+                                            ok = true;
+                                            break;
+                                        }
+                                        Ok(_) => {}
+                                        Err(_) => break,
+                                    }
+                                }
+                                ok
+                            }
+                        }
+                    })
+                });
+                ctx.eval();
+                ctx.cover(&("W5", *ename, limit, *iname));
+                ctx.seen("W5.entries", *ename);
+                ctx.seen("W5.inputs", *iname);
+                let Ok(accepted) = r else {
+                    ctx.note(format!("W5 {ename} panicked (see C04)"));
+                    continue;
+                };
+                // (the accumulated header text, the parser's copy of it and the header map built from it: measured
+                // up to 5.2 x limit on the unchanged tree)
+                let bound = 8 * limit + 256 * KIB;
+                if st.peak > bound {
+                    ctx.violation(
+                        format!("C19/W5/dearmor-limit-not-enforced/{}", ename.split("::").next().unwrap_or("")),
+                        format!("{ename} with DearmorOptions::set_limit({limit}) over the input '{iname}' ({} octets, armor header never completes): peak allocation {} (bound 8*limit + 256 KiB = {bound}), accepted={accepted}", data.len(), st.peak),
+                        json!({"entry": ename, "limit": limit, "input": iname, "input_len": data.len()}),
+                    );
+                }
+                if accepted {
+                    ctx.tally("W5.accepted-input-without-armor", 1);
+                }
+            }
+        }
+    }
 }
 
 /// The allocator probe must see allocations made inside the closure and must not see buffers that
